@@ -141,12 +141,18 @@ func workerMain(prop *Property, tier string, seed int64, deadline time.Time, ver
 	enc := json.NewEncoder(out)
 	for in.Scan() {
 		var idx int
-		fmt.Sscan(in.Text(), &idx)
+		var sliceMs int64
+		fmt.Sscan(in.Text(), &idx, &sliceMs)
 		if idx < 0 || idx >= len(scs) {
 			os.Exit(2)
 		}
 		t0 := time.Now()
 		ctx := &RunCtx{Tier: tier, Deadline: deadline, Seed: seed}
+		if sliceMs > 0 {
+			if d := t0.Add(time.Duration(sliceMs) * time.Millisecond); d.Before(deadline) {
+				ctx.Deadline = d
+			}
+		}
 		res := scs[idx].Run(ctx)
 		res.Scenario = scs[idx].Name
 		res.WallS = time.Since(t0).Seconds()
@@ -251,9 +257,20 @@ func parentMain(prop *Property, tier string, seed int64, verifDir string, nworke
 					break
 				}
 				idx := order[next]
+				left := len(order) - next
 				next++
 				mu.Unlock()
-				fmt.Fprintf(stdin, "%d\n", idx)
+				// thorough tier: every scenario gets a fair share of what is left of the
+				// budget (shares grow as cheap scenarios finish early), so that a few
+				// expensive scenarios cannot keep the others from running at all
+				var slice time.Duration
+				if tier == "thorough" {
+					slice = time.Until(deadline) * time.Duration(nworkers) / time.Duration(left)
+					if slice < time.Second {
+						slice = time.Second
+					}
+				}
+				fmt.Fprintf(stdin, "%d %d\n", idx, int64(slice/time.Millisecond))
 				line, err := resr.ReadBytes('\n')
 				var res *Result
 				if err == nil {
@@ -310,8 +327,27 @@ func parentMain(prop *Property, tier string, seed int64, verifDir string, nworke
 			samples = append(samples, map[string]any{"scenario": r.Scenario, "case": r.Samples[0]})
 		}
 		findings = append(findings, r.Findings...)
+		// a bound counts as completed only if every scenario that reports it completed it
 		for k, v := range r.Bounds {
-			bounds[k] = v
+			old, have := bounds[k]
+			switch nv := v.(type) {
+			case float64:
+				if ov, ok := old.(float64); !have || (ok && nv < ov) {
+					bounds[k] = nv
+				}
+			case int:
+				if ov, ok := old.(float64); !have || (ok && float64(nv) < ov) {
+					bounds[k] = float64(nv)
+				}
+			case bool:
+				if ov, ok := old.(bool); !have || (ok && ov && !nv) {
+					bounds[k] = nv
+				}
+			default:
+				if !have {
+					bounds[k] = v
+				}
+			}
 		}
 	}
 	known := loadKnown(verifDir)
@@ -516,6 +552,7 @@ var pruneBonus int
 
 func runVs(c *RunCtx, sp *VsSpec) *Result {
 	res := &Result{Exhaustive: true, Bounds: map[string]any{}}
+	declaredP := sp.P
 	if c.Thorough() && pruneBonus > 0 && !sp.Prune {
 		cp := *sp
 		cp.Prune, cp.PruneP = true, sp.P+pruneBonus
@@ -581,6 +618,9 @@ func runVs(c *RunCtx, sp *VsSpec) *Result {
 			if sp.PruneP > maxP {
 				maxP = sp.PruneP
 			}
+		} else if v1 == nil && v2 == nil && (!plain.Exhaustive || !pruned.Exhaustive) {
+			prune = false
+			res.addExtra("scenarios_where_state_pruning_could_not_be_validated_in_time", 1)
 		} else {
 			prune = false
 			res.addExtra("scenarios_where_state_pruning_was_rejected", 1)
@@ -639,6 +679,9 @@ func runVs(c *RunCtx, sp *VsSpec) *Result {
 	res.addExtra("horizon_hits", total.HorizonHits)
 	res.Bounds["state_key_pruning"] = prune
 	res.addExtra(fmt.Sprintf("scenarios_completed_at_bound_%d", completedP), 1)
+	if completedP >= declaredP {
+		res.addExtra("scenarios_completed_at_least_at_their_declared_bound", 1)
+	}
 	if sp.Delay {
 		res.Bounds["scheduler_deviations"] = completedP
 	} else {
